@@ -11,7 +11,8 @@ META = {
                    "decided for all keys and messages of the bound; plus determinism, exact length, "
                    "distinct inputs -> distinct outputs (collision-free oracle) and the declared-length contracts "
                    "(declared lengths are unbounded symbolic ints).",
-    "bounds": {"key": "0..3 symbolic bytes", "message": "0..3 symbolic bytes",
+    "bounds": {"key": "0..3 symbolic bytes, plus length classes 16..80 (thorough ..129) with symbolic contents",
+               "message": "0..3 symbolic bytes, plus lengths 16/64/200 with symbolic contents",
                "output length": "1..3*digest_size+2 (quick: 1..digest_size+2 and boundary values)",
                "digests": "sha1, sha256, sha512, md5 (+ shake_128, shake_256 for the hash wrapper)"},
     "outside_bounds": "longer keys/messages (the code does not branch on them), SHA/HMAC bit patterns, collisions",
@@ -168,6 +169,15 @@ def obligations(tier, seed):
             for ci, part in enumerate(chunks):
                 obs.append(ob("c16.prf.%s.k%d.m%d.p%d" % (dig, klen, mlen, ci), "harness.c16", "h_prf",
                               {"digest": dig, "klen": klen, "mlen": mlen, "ns": part, "seed": seed}, budget_s=300))
+        # key LENGTH classes up to the property's 80 bytes (the digest block size is where HMAC itself changes
+        # behaviour); contents stay symbolic, the oracle only compares them
+        for klen in ((16, 63, 64, 65, 80) if q else (4, 8, 16, 20, 32, 48, 63, 64, 65, 79, 80, 127, 128, 129)):
+            obs.append(ob("c16.prf_longkey.%s.k%d" % (dig, klen), "harness.c16", "h_prf",
+                          {"digest": dig, "klen": klen, "mlen": 1, "ns": [1, ds, ds + 1], "seed": seed},
+                          budget_s=300))
+        for mlen in ((16, 64, 200) if q else (8, 16, 55, 56, 64, 65, 119, 200)):
+            obs.append(ob("c16.prf_longmsg.%s.m%d" % (dig, mlen), "harness.c16", "h_prf",
+                          {"digest": dig, "klen": 2, "mlen": mlen, "ns": [ds + 1], "seed": seed}, budget_s=300))
         obs.append(ob("c16.prf_distinct.%s" % dig, "harness.c16", "h_prf_distinct",
                       {"digest": dig, "klen": 2, "mlen": 2, "n": ds + 3, "seed": seed}, budget_s=300))
     obs.append(ob("c16.prf_contracts", "harness.c16", "h_prf_contracts", {"seed": seed}, budget_s=300))
